@@ -20,6 +20,7 @@ var c02Texts = []string{
 	"a  b", "x\t\ty", "p \t q", " lead", "trail ", "  both  ",
 	"", "",
 	"a,b", "(x)", "k=v", "AND", "not",
+	"10\u00a0000\u00a0km", "東京\u3000都", "line1\nline2", "a\u2003b", "x\u00a0 y",
 }
 
 func c02Leaf(r *core.Rng) *LeafDesc {
@@ -254,7 +255,7 @@ func init() {
 			"ints/uints/floats of every width, bools, stringers; Conditions valid and invalid (no operator, out-of-range operator) with primitive/Stack/Condition expressions. String() and fmt %s are compared with an independent renderer written from the statement. " +
 			"non-trivial = depth >= 2 and (a non-ASCII or tab-containing leaf or >= 2 different options set somewhere); distinct = hash of the tree description.",
 		Assumptions: []string{
-			"outside the deciding domain (statement silent, counted as out-of-domain, only required not to be judged): nil/func/chan elements, zero-valued Condition elements, zero-valued stringers, leaf text containing white space other than blank/tab, a parenthetical lead-once non-LIST stack without any rendered operand, installed presentation/validity policies",
+			"outside the deciding domain (statement silent, counted as out-of-domain, only required not to be judged): nil/func/chan elements, zero-valued Condition elements, zero-valued stringers, leaf text that begins or ends with white space other than blank/tab, a parenthetical lead-once non-LIST stack without any rendered operand, installed presentation/validity policies",
 			"no-padding is read as: no blank added around leaves, symbols, list joins and inside parentheses; word operators keep their surrounding blanks",
 			"number text = shortest decimal representation (strconv 'g' for floats)",
 		},
